@@ -53,8 +53,8 @@ type c07Prog struct {
 var c07Muts = []string{
 	"payload-flip", "payload-insert", "payload-delete", "payload-set", "payload-ws-replace", "payload-ws-insert", "payload-ws-delete", "payload-append-nl",
 	"logid",
-	"next-drop", "next-add", "next-add-dup", "next-swap", "next-replace", "next-move-to-refs",
-	"refs-drop", "refs-add", "refs-add-dup", "refs-swap", "refs-replace",
+	"next-drop", "next-add", "next-add-dup", "next-add-undef", "next-swap", "next-replace", "next-move-to-refs",
+	"refs-drop", "refs-add", "refs-add-dup", "refs-add-undef", "refs-swap", "refs-replace",
 	"v", "clock-id", "clock-time+1", "clock-time-1", "clock-time-0", "clock-time-set",
 	"key-other-writer", "key-flip", "key-truncate", "key-extended", "key-garbage", "key-cleared", "sig-other-entry", "sig-flip", "sig-truncate", "sig-other-writer-same-content",
 	// a field replaced by its "empty" value
@@ -263,6 +263,21 @@ func runC07(tb ev.TB, p c07Prog) ev.Result {
 		at := p.Arg2 % (len(list) + 1)
 		list = append(list[:at:at], append([]cid.Cid{dup}, list[at:]...)...)
 		if p.Mut == "next-add-dup" {
+			m.SetNext(list)
+		} else {
+			m.SetRefs(list)
+		}
+	case "next-add-undef", "refs-add-undef":
+		// the undefined identifier (cid.Undef, what a null link of a JSON rendering becomes) is added to the list at a
+		// generated position, possibly an empty list: the list has another member then
+		list := append([]cid.Cid(nil), e.GetNext()...)
+		if p.Mut == "refs-add-undef" {
+			list = append([]cid.Cid(nil), e.GetRefs()...)
+		}
+		touchedList = len(list)
+		at := p.Arg2 % (len(list) + 1)
+		list = append(list[:at:at], append([]cid.Cid{cid.Undef}, list[at:]...)...)
+		if p.Mut == "next-add-undef" {
 			m.SetNext(list)
 		} else {
 			m.SetRefs(list)
